@@ -386,6 +386,13 @@ def install(ctx):
     @M.reg('<From>::from', '<Into>::into')
     def from_(ip, pc, args, dt):
         v = args[0]
+        raw = pc.get('trait_raw', '')
+        i = raw.find('<')
+        if i >= 0 and pc.get('qself'):
+            from mirparse import match_close
+            tgt = raw[i + 1:match_close(raw, i)].strip()
+            if last_type_name(tgt) == last_type_name(pc['qself']) and tgt.count('<') == pc['qself'].count('<'):
+                return v        # reflexive impl: `impl<T> From<T> for T`
         if isinstance(v, S) and v.ty in INT_TYPES and dt and dt.strip() in INT_TYPES:
             return S(v.t, dt.strip())
         if hasattr(v, 'convert'):
